@@ -133,6 +133,8 @@ class FlowSlicer:
         for p in pl.get("p", []):
             if p.startswith("F:"):
                 labels.add("field:" + norm(p[2:]))
+            elif p.startswith("U:"):
+                labels.add("upvar:" + p[2:].rsplit("#", 1)[-1])      # captured variable number of this closure
         if 1 <= pl["l"] <= self.b.arg_count:
             labels.add("arg:%d" % pl["l"])
 
@@ -204,6 +206,29 @@ class FlowSlicer:
                 if f:
                     out.add(f)
         return out
+
+
+def resolve_upvars(prog, body, labels, depth=0):
+    """Replace `upvar:<n>` labels of a closure body by the labels of the captured value where the closure is built (one level per
+    nesting, up to three): a value computed in the enclosing function and captured is what the closure reads."""
+    ups = {l for l in labels if l.startswith("upvar:")}
+    if not ups or not body.parent or depth > 3:
+        return set(labels)
+    out = set(labels) - ups
+    for pb in prog.all_bodies({body.crate}):
+        if pb.nkey != body.parent and pb.parent != body.parent:
+            continue
+        if pb is body:
+            continue
+        for s, st in pb.assigns():
+            rv = st["rv"]
+            if rv.get("k") == "aggr" and rv.get("ak") == "closure" and norm(rv.get("def", "")) == body.nkey:
+                fs = FlowSlicer(pb, control=False)
+                for u in ups:
+                    i = int(u.split(":")[1])
+                    if i < len(rv.get("ops", [])):
+                        out |= resolve_upvars(prog, pb, fs.operand_labels(rv["ops"][i], s), depth + 1)
+    return out
 
 
 def expand_closure_labels(prog, labels):
